@@ -7,9 +7,22 @@
    Proved for ALL inputs: elements the model side writes are accepted by the grammar's own
    readers -- the block prompt carries the checksum the grammar demands for the proposal lines
    just written; the answer line is read as one answer per proposal from the documented
-   alphabet; decimal fields round-trip through the grammar's reader.  The whole-session
-   statement is a Prop decided per run by the extracted validator and the reference peer. *)
-From Verif Require Import Base.Bytes Base.Utf8 B2F.Secure B2F.Side B2F.Grammar B2F.GrammarP.
+   alphabet; decimal fields round-trip through the grammar's reader; and for WHOLE SESSIONS:
+   every complete session of two library sides with conforming configurations is accepted by
+   the grammar in full (C05_pair_conforms: handshake lines, proposal blocks, prompts, answer
+   lines, framed transfers, turn-taking; any number of messages and blocks, any policies,
+   both directions).  "Conforming configuration" is spelled out (side_conf: SID fields
+   without '-', forwarding addresses without '|' and '>', MIDs of 1..12 alphanumeric bytes,
+   non-empty titles, the announced size equal to the decompressed length ...), and each
+   clause is shown necessary by a closed counterexample in B2F/ConformP.v.  The one-sided
+   statement first written here (any peer) is refuted (C05_first_statement_refuted: e.g. a
+   peer line ";FW: X>" ends the greeting for the grammar but not for the library; an offset
+   request above 999999 is restarted at 0 by the library); for the library's sending turn
+   against an arbitrary peer the synchronisation step is proved (C05_sender_turn); the
+   receiving turn and the greeting against an arbitrary peer are decided per run by the
+   extracted validator and the reference peer. *)
+From Verif Require Import Base.Bytes Base.Utf8 B2F.Secure B2F.Side B2F.Grammar B2F.GrammarP
+  B2F.PairDefs B2F.PairP B2F.DeliverP B2F.ConformP.
 Open Scope N_scope.
 
 (* FULL STATEMENT (not asserted): whatever the peer sends, as long as the grammar accepts the
@@ -23,6 +36,23 @@ Definition C05_conforming_statement : Prop :=
     | VOk => True
     | VBad who _ _ => who <> c_master cfg          (* only the peer can be at fault *)
     end.
+
+(* the statement above is false as written *)
+Theorem C05_first_statement_refuted : ~ C05_conforming_statement.
+Proof. exact C05_statement_is_false. Qed.
+Print Assumptions C05_first_statement_refuted.
+
+(* WHOLE SESSIONS of two library sides: the independent grammar accepts both streams in full *)
+Theorem C05_pair_conforms : forall (a b : side_cfg),
+  c_master a = negb (c_master b) -> pair_text_ok a b ->
+  side_conf a -> side_conf b -> side_ready a b -> side_ready b a ->
+  forall in_a in_b, closed a b in_a in_b ->
+    let '(ms, ss) := if c_master a then (in_b, in_a) else (in_a, in_b) in validate ms ss = VOk.
+Proof. exact pair_conforms. Qed.
+Print Assumptions C05_pair_conforms.
+
+(* a conforming pair exists and is accepted (non-vacuity), computed by the kernel *)
+Example C05_pair_instance := kx_conforming.
 
 Theorem C05_prompt : forall lines, Forall ascii_line lines ->
   valid_prompt ([70; 62; 32] ++ fmt_02X (block_checksum lines)) lines = true.
